@@ -21,8 +21,10 @@ type HandCase struct {
 // HandCases returns the embedded hand-written cases, sorted by name: programs
 // with constructs no generator family emits (io_limit / io_bind blocks, marks
 // and undo, history copies, statuses as values, nested public coroutines,
-// utility sub-structs, ...). Cases documented to differ from the C, or whose C
-// must not be run, are left out.
+// utility sub-structs, ...). Cases whose C must not be run are left out; the
+// trigger cases written for defects of the pinned tree are included (the
+// repaired ones are rejected by the checker or behave; the others are judged
+// like any program).
 func HandCases() []*Case {
 	ents, _ := handFS.ReadDir("testdata")
 	var names []string
@@ -39,7 +41,7 @@ func HandCases() []*Case {
 			continue
 		}
 		hc := &HandCase{}
-		if json.Unmarshal(b, hc) != nil || hc.ExpectDiff || hc.SkipC {
+		if json.Unmarshal(b, hc) != nil || hc.SkipC {
 			continue
 		}
 		c := hc.Case
